@@ -180,7 +180,8 @@ def kani_leg(prop, tier):
          + (list(KANI_THOROUGH_BOUNDED.get(prop, {}).keys()) if tier == "thorough" else [])
     known = run.load_known()
     return kanileg.run(run.REPO, hs, want_playback=lambda h: run.match_known(known, prop, "kani:%s/check" % h) is None,
-                       timeout=1800 if tier == "quick" else 7200, harness_timeout=None if tier == "quick" else "3600s")
+                       timeout=1800 if tier == "quick" else 7200, harness_timeout=None if tier == "quick" else "3600s",
+                       jobs=8 if tier == "quick" else 3, mem_kb=None if tier == "quick" else 20 * 1024 * 1024)
 
 def check(prop, tier, args):
     t0 = time.time()
@@ -336,6 +337,8 @@ def check(prop, tier, args):
                                      "oid": "kani:%s/check" % h, "backend": "kani", "message": "kani harness FAILED",
                                      "rendered": kani_excerpt(kr.get("_log", ""), h) + ("\n[counterexample extraction: %s]" % pb["error"] if pb.get("error") else ""),
                                      "src": None, "witness": wit, "cost": 0 if bounded else st.get("failed_checks", 1)})
+                elif st["status"] == "ABORTED":
+                    undecided.append("kani harness %s did not finish (address-space limit / timeout / tool crash; no failed check)" % h)
                 else:
                     undecided.append("kani harness %s did not run" % h)
     # ------------------------------------------------------------------ bounded stand-in
